@@ -316,7 +316,23 @@ def m_dims(r):
     r.dims = tuple(names)
 
 
-MUTATORS = {"m_relabel": m_relabel, "m_relabel_last": m_relabel_last_axis, "m_rename": m_rename, "m_rename_last": m_rename_last, "m_set_sorted": m_set_sorted,
+def m_axes_fewer(r):      # whole-axes assignment with a wrong number of axes: must be refused (or leave a well-formed array)
+    r.axes = [ax.copy() for ax in r.axes][:-1]
+
+
+def m_axes_more(r):
+    r.axes = [ax.copy() for ax in r.axes] + [Axis(np.arange(r.shape[0]), "extra_")]
+
+
+def m_axes_none(r):
+    r.axes = []
+
+
+def m_axes_ok(r):
+    r.axes = [Axis(np.array(py(ax.values)[::-1], dtype=ax.values.dtype), ax.name) for ax in r.axes]
+
+
+MUTATORS = {"m_axes_fewer": m_axes_fewer, "m_axes_more": m_axes_more, "m_axes_none": m_axes_none, "m_axes_ok": m_axes_ok, "m_relabel": m_relabel, "m_relabel_last": m_relabel_last_axis, "m_rename": m_rename, "m_rename_last": m_rename_last, "m_set_sorted": m_set_sorted,
             "m_set_axis_values": m_set_axis_values, "m_dimattr": m_dimattr, "m_put": m_put, "m_dims": m_dims}
 
 
@@ -444,7 +460,7 @@ class Space(object):
             elif kind == "query":
                 call(QUERIES[name], src)
             else:
-                if grouped and name in ("m_rename", "m_rename_last", "m_dims", "m_relabel", "m_relabel_last", "m_set_sorted", "m_set_axis_values", "m_dimattr"):
+                if grouped and name in ("m_rename", "m_rename_last", "m_dims", "m_relabel", "m_relabel_last", "m_set_sorted", "m_set_axis_values", "m_dimattr", "m_axes_ok", "m_axes_fewer", "m_axes_more", "m_axes_none"):
                     return ok("disabled", False, terminal=True, canon=None)     # direct edits of a grouped axis are outside the alphabet
                 _TAKEN.clear()
                 for rr in regs:
